@@ -238,6 +238,54 @@ theorem run_steps_pos (gs : List (Nat → Bool)) (hm : ∀ g ∈ gs, Mono g) :
     | tooSmall => simp [run, hadv] at ht
     | belowMin => simp [run, hadv] at ht
 
+/-- every accepted step of a run is at least the configured minimum step -/
+theorem run_steps_ge_min (gs : List (Nat → Bool)) (hm : ∀ g ∈ gs, Mono g) :
+    ∀ (s : TL), Inv s → s.cur < maxT → ∀ t ∈ (run s gs).2, s.minStep ≤ t := by
+  induction gs with
+  | nil => intro s _ _ t ht; simp [run] at ht
+  | cons g gs ih =>
+    intro s hs hl t ht
+    have hmg := hm g (List.mem_cons_self)
+    rcases hadv : advance s g with ⟨s', ts, o⟩
+    cases o with
+    | stepped m =>
+      have h := advance_stepped s g hmg hs hl s' ts m hadv
+      obtain ⟨_, _, hge, _, _, hcur, _, hle, hend, hmin, _⟩ := h
+      have hs' : Inv s' := by have := advance_inv s g hmg hs hl; rw [hadv] at this; exact this
+      cases m with
+      | true =>
+        have hne : s'.cur ≠ maxT := by intro e; have := hend.mpr e; exact absurd this (by decide)
+        simp only [run, hadv, List.mem_cons] at ht
+        rcases ht with rfl | ht
+        · exact hge
+        · have := ih (fun g hg => hm g (List.mem_cons_of_mem _ hg)) s' hs' (by omega) t ht
+          omega
+      | false =>
+        simp only [run, hadv, List.mem_cons, List.not_mem_nil, or_false] at ht
+        subst ht; exact hge
+    | tooSmall => simp [run, hadv] at ht
+    | belowMin => simp [run, hadv] at ht
+
+/-- **The caller's loop terminates**: however the requests vary, a run accepts at most
+`(2^63 - cur) / minStep` steps (each accepted step is at least the minimum step, their sum never
+passes the end); with the drivers' default minimum `1e-10 · T` that is about `10^10` steps. -/
+theorem run_length_bound (gs : List (Nat → Bool)) (hm : ∀ g ∈ gs, Mono g) (s : TL) (hs : Inv s)
+    (hl : s.cur < maxT) : (run s gs).2.length * s.minStep ≤ maxT - s.cur := by
+  have hsum := run_sum gs hm s hs hl
+  have hge := run_steps_ge_min gs hm s hs hl
+  have key : ∀ (l : List Nat) (m : Nat), (∀ t ∈ l, m ≤ t) → l.length * m ≤ l.sum := by
+    intro l m
+    induction l with
+    | nil => intro _; simp
+    | cons a l ih =>
+      intro h
+      have h1 := h a List.mem_cons_self
+      have h2 := ih (fun t ht => h t (List.mem_cons_of_mem _ ht))
+      simp only [List.length_cons, List.sum_cons, Nat.add_mul, Nat.one_mul]
+      omega
+  have := key _ _ hge
+  omega
+
 /-- a time line saved and restored continues identically -/
 theorem restore_dump (s : TL) : restore (dump s) = some s := rfl
 
